@@ -53,7 +53,7 @@ def run(ctx):
     Mon = icontract.invariant(matching_has_series_length)(SubsequenceAlignment)
 
     L = 14 if ctx.quick else 25
-    N = 140 if ctx.quick else 3000
+    N = ctx.scale(1500, 15000)
     for it in range(N):
         r = rng.randint(1, 6)
         c = rng.randint(1, L)
